@@ -12,6 +12,7 @@ from pyvc import tstr
 from pyvc.tstr import TS, Block, VT, vt_new
 from spec import padding as SP
 from .common import *
+from .renderable import u_render_str  # noqa: F401  (registers the render() unit for C05)
 
 PAD = "padding.py"
 TRUSTED = ["dataclasses.astuple returns the fields in declaration order (field order is re-read from the class body)",
